@@ -56,6 +56,7 @@ typedef struct {
 #if ( MACH==PTHREAD )
     pthread_mutex_t lock;
 #endif
+    int_t  tail_users; /* threads whose working storage lives at the TAIL end */
 } LU_stack_t;
 
 typedef enum {HEAD, TAIL}   stack_end_t;
@@ -93,6 +94,7 @@ void psgstrf_SetupSpace(void *work, int_t lwork)
         stack.top1 = 0;
         stack.top2 = lwork;
         stack.array = (void *) work;
+        stack.tail_users = 0;
     }
 #if ( MACH==PTHREAD )
     pthread_mutex_init ( &stack.lock, NULL);
@@ -395,6 +397,7 @@ psgstrf_MemInit(int_t n, int_t annz, superlumt_options_t *superlumt_options,
 	    whichspace = USER;
 	    stack.size = lwork;
 	    stack.top2 = lwork;
+	    stack.tail_users = 0;
 	}
 	
 	lsub  = sexpanders[LSUB].mem  = Lstore->rowind;
@@ -484,21 +487,14 @@ psgstrf_WorkInit(int_t n, int_t panel_size, int_t **iworkptr, float **dworkptr)
 #elif ( MACH==OPENMP ) /* Use openMP ... */
 #pragma omp critical ( STACK_LOCK )
 #endif
-              {
-	        stack.top2 -= extra;
-	        stack.used += extra;
-	        SLU_MT_VERIF_EVENT(SLU_EV_STACK, -1, 4, extra, TAIL, &stack);
-	      }
+        {
+	    ++stack.tail_users;
+        }
 #if ( MACH==PTHREAD ) /* Use pthread ... */
         pthread_mutex_unlock( &stack.lock );
 #endif
-	    }
-    } /* else */
-    if ( ! *dworkptr ) {
-	printf("malloc fails for local dworkptr[] ... dsize " IFMT "\n", dsize);
-	return (isize + dsize + n);
     }
-	
+
     return 0;
 }
 
@@ -535,8 +531,14 @@ void psgstrf_WorkFree(int_t *iwork, float *dwork, GlobalLU_t *Glu)
 #pragma omp critical ( STACK_LOCK )
 #endif
         {
-	    stack.used -= (stack.size - stack.top2);
-	    stack.top2 = stack.size;
+	    /* The TAIL end is a stack shared by all threads: it can only be
+	       released as a whole, i.e. by the last thread that still has its
+	       working storage there. */
+	    if ( --stack.tail_users <= 0 ) {
+		stack.used -= (stack.size - stack.top2);
+		stack.top2 = stack.size;
+		stack.tail_users = 0;
+	    }
 	    SLU_MT_VERIF_EVENT(SLU_EV_STACK, -1, 5, 0, TAIL, &stack);
 	    
 	    /*	psgstrf_StackCompress(Glu);  */
